@@ -172,7 +172,11 @@ func atoi(s string) (int64, bool) {
 
 // parseM3u8: ( target mseq ( ( disc ms uri tok ) ... ) ); a text of another shape gives target -1,
 // which the oracle rejects because the rendering of the view must reproduce the raw text.
-func parseM3u8(text string) Val {
+//
+// The URI line is split into URI and token only where it ends with "?token=" + the token that was asked for (paths
+// and tokens may themselves contain '?', '=', '%', "?token="); otherwise the whole line is the URI and the token is
+// empty.  Whether the lines are right is decided in Coq on the raw text (uri_lines), not here.
+func parseM3u8(text string, tok string) Val {
 	bad := L(I(-1), I(-1), L())
 	lines := strings.Split(text, "\n")
 	if len(lines) < 7 || lines[0] != "#EXTM3U" || lines[1] != "#EXT-X-VERSION:3" || lines[2] != "#EXT-X-ALLOW-CACHE:NO" ||
@@ -206,11 +210,11 @@ func parseM3u8(text string) Val {
 		if !ok3 || !ok4 || i+1 >= len(lines) {
 			return bad
 		}
-		uri, tok := lines[i+1], ""
-		if k := strings.Index(uri, "?token="); k >= 0 {
-			uri, tok = uri[:k], uri[k+len("?token="):]
+		uri, etok := lines[i+1], ""
+		if tok != "" && strings.HasSuffix(uri, "?token="+tok) {
+			uri, etok = uri[:len(uri)-len("?token="+tok)], tok
 		}
-		entries = append(entries, L(Bo(disc), I(whole*1000+frac), S(uri), S(tok)))
+		entries = append(entries, L(Bo(disc), I(whole*1000+frac), S(uri), S(etok)))
 		i += 2
 	}
 	return L(I(target), I(mseq), L(entries...))
@@ -332,7 +336,7 @@ func runCase(c Val) Val {
 		plv := L()
 		if b, err := pl.M3u8(dtok); err == nil {
 			text := string(b)
-			plv = L(parseM3u8(text), S(text))
+			plv = L(parseM3u8(text, dtok), S(text))
 		}
 		live := []Val{}
 		news := []Val{}
